@@ -1041,91 +1041,70 @@ pub mod large {
     }
 
     /// log-likelihood by the scaled forward recursion in linear space
-    pub fn ref_forward_log(f: &Flat, obs: &[usize]) -> f64 {
-        let (s, m) = (f.s, f.m);
-        let mut a: Vec<f64> = (0..s).map(|i| f.init[i] * f.emit[i * m + obs[0]]).collect();
-        let mut na = vec![0.0; s];
-        let mut ll = 0.0;
-        let mut first = true;
-        for &o in obs {
-            if !first {
-                for x in na.iter_mut() {
-                    *x = 0.0;
-                }
-                for i in 0..s {
-                    let ai = a[i];
-                    if ai == 0.0 {
-                        continue;
-                    }
-                    let row = &f.trans[i * s..(i + 1) * s];
-                    for j in 0..s {
-                        na[j] += ai * row[j];
-                    }
-                }
-                for j in 0..s {
-                    na[j] *= f.emit[j * m + o];
-                }
-                std::mem::swap(&mut a, &mut na);
-            }
-            first = false;
-            let c: f64 = a.iter().sum();
-            if c == 0.0 {
-                return f64::NEG_INFINITY;
-            }
-            ll += c.ln();
-            for x in a.iter_mut() {
-                *x /= c;
-            }
+    /// ln(sum_i exp(t_i)) with the maximum factored out (std exp / ln: relative error ~1e-16 per call)
+    fn lse(terms: &[f64]) -> f64 {
+        let mx = terms.iter().cloned().fold(f64::NEG_INFINITY, f64::max);
+        if mx == f64::NEG_INFINITY {
+            return mx;
         }
-        let fin: f64 = match &f.end {
-            Some(e) => (0..s).map(|i| a[i] * e[i]).sum(),
-            None => a.iter().sum(),
-        };
-        if fin == 0.0 {
-            f64::NEG_INFINITY
-        } else {
-            ll + fin.ln()
-        }
+        mx + terms.iter().map(|t| (t - mx).exp()).sum::<f64>().ln()
     }
 
-    /// log-likelihood by the scaled backward recursion in linear space
+    /// Forward likelihood, every state kept in log space. (A scaled linear-space recursion loses a state whose
+    /// value falls more than 10^-308 below the largest one - which is the state that matters when the end
+    /// probabilities, or for the backward pass the initial distribution, select it; sweep seed 403 hit that with
+    /// two disconnected states over 511 steps.)
+    pub fn ref_forward_log(f: &Flat, obs: &[usize]) -> f64 {
+        let (s, m) = (f.s, f.m);
+        let lt = ln_vec(&f.trans);
+        let le = ln_vec(&f.emit);
+        let mut a: Vec<f64> = (0..s).map(|i| f.init[i].ln() + le[i * m + obs[0]]).collect();
+        let mut terms = vec![0.0; s];
+        for &o in &obs[1..] {
+            let mut na = vec![f64::NEG_INFINITY; s];
+            for j in 0..s {
+                if le[j * m + o] == f64::NEG_INFINITY {
+                    continue;
+                }
+                for i in 0..s {
+                    terms[i] = a[i] + lt[i * s + j];
+                }
+                na[j] = lse(&terms) + le[j * m + o];
+            }
+            a = na;
+        }
+        let fin: Vec<f64> = match &f.end {
+            Some(e) => (0..s).map(|i| a[i] + e[i].ln()).collect(),
+            None => a,
+        };
+        lse(&fin)
+    }
+
     pub fn ref_backward_log(f: &Flat, obs: &[usize]) -> f64 {
         let (s, m) = (f.s, f.m);
         let t = obs.len();
+        let lt = ln_vec(&f.trans);
+        let le = ln_vec(&f.emit);
         let mut b: Vec<f64> = match &f.end {
-            Some(e) => e.clone(),
-            None => vec![1.0; s],
+            Some(e) => e.iter().map(|x| x.ln()).collect(),
+            None => vec![0.0; s],
         };
-        let mut nb = vec![0.0; s];
-        let mut ll = 0.0;
+        let mut terms = vec![0.0; s];
         for k in (1..t).rev() {
             // b_{k-1}[i] = sum_j trans[i][j] emit[j][obs[k]] b_k[j]
             let o = obs[k];
-            let w: Vec<f64> = (0..s).map(|j| f.emit[j * m + o] * b[j]).collect();
+            let w: Vec<f64> = (0..s).map(|j| le[j * m + o] + b[j]).collect();
+            let mut nb = vec![f64::NEG_INFINITY; s];
             for i in 0..s {
-                let row = &f.trans[i * s..(i + 1) * s];
-                let mut acc = 0.0;
                 for j in 0..s {
-                    acc += row[j] * w[j];
+                    terms[j] = lt[i * s + j] + w[j];
                 }
-                nb[i] = acc;
+                nb[i] = lse(&terms);
             }
-            std::mem::swap(&mut b, &mut nb);
-            let c: f64 = b.iter().cloned().fold(0.0, f64::max);
-            if c == 0.0 {
-                return f64::NEG_INFINITY;
-            }
-            ll += c.ln();
-            for x in b.iter_mut() {
-                *x /= c;
-            }
+            b = nb;
         }
-        let fin: f64 = (0..s).map(|i| f.init[i] * f.emit[i * m + obs[0]] * b[i]).sum();
-        if fin == 0.0 {
-            f64::NEG_INFINITY
-        } else {
-            ll + fin.ln()
-        }
+        let fin: Vec<f64> = (0..s).map(|i| f.init[i].ln() + le[i * m + obs[0]] + b[i]).collect();
+        lse(&fin)
     }
 
     /// log of the joint probability of one path (sum of std logarithms)
